@@ -41,4 +41,13 @@ theorem Bridge_stage_constants :
     Sympler.Gen.Stages.stageIterationsDefault = 20 ∧
     (∀ c s, Sympler.Gen.Stages.boundExceeded c s = decide (c > s)) := ⟨by decide, by decide, rfl, fun _ _ => rfl⟩
 
+
+/-- **the early pass (`stage="0"`) is staged by a faithful twin** (regenerated): `findStageForSymbolName_0` searches the same five kinds
+of producer registries, in the same order, as `findStageForSymbolName` - each time the `_0` registry, and the default-pass function
+none of them.  (A producer looked up in the wrong pass's registry is not found: reader and producer then get the same stage and the
+input order decides - the seeded change C06c.) -/
+theorem C06_stage0_twin :
+    Sympler.Gen.Stages.stageRegistries0 = Sympler.Gen.Stages.stageRegistries ∧ Sympler.Gen.Stages.stageRegistries0AllEarly = true ∧
+    Sympler.Gen.Stages.stageRegistriesAnyEarly = false ∧ Sympler.Gen.Stages.stageRegistries.length = 5 := by decide
+
 end Sympler.Stages
